@@ -215,7 +215,10 @@ CHECKS = {
               "quantizer; a name entry takes precedence over the class entry; relu/tanh/sigmoid map to quantized_*(bits), other activations are "
               "untouched. Correspondence: random sequential/branched Keras models x random dictionaries: the JSON that model_quantize hands to "
               "the loader is compared layer by layer with the Coq function; connectivity, non-quantization hyper-parameters, output shapes, "
-              "transferred weights, and non-modification of the source model and of the caller's dictionary are checked on the real objects."),
+              "transferred weights (including batch-norm moving statistics and frozen layers), and non-modification of the source model and of the caller's dictionary "
+              "are checked on the real objects. The Activation branch is modelled in full (Convert/Adaptive.v): QActivation and QAdaptiveActivation entries, the "
+              "prefer_qadaptiveactivation switch, parameter stripping and total_bits of an adaptive entry, proved to be a conservative extension of the base function; "
+              "directed models contain every weighted layer kind with and without a bias."),
         design_ref="DESIGN.md section 5 C12, section 10",
         note=(TB_COMMON + "Keras model (re)construction is runtime behaviour outside the model. Recurrent, Bidirectional, BatchNormalization and "
               "folded layers are not generated (they do not build under the pinned Keras 3); SeparableConv and LeakyReLU conversions are "
